@@ -193,6 +193,69 @@ static void l5(void) {
     VS_CHECK(ga.live_blocks == 0, "leak", "%llu allocation(s) still live after logger clean-up", (unsigned long long)ga.live_blocks);
 }
 
+
+/* L6: the no-alloc logger (fixed 8 KiB line buffer, mutex around the fwrite only) used by two threads at once.
+ * (added after a seeded change - the line buffer made static, i.e. shared - was missed: formatting happens outside
+ * the logger's lock, so the buffer must be private to each call) */
+static struct aws_logger nlogger;
+static void *noalloc_fn(void *p) {
+    int id = (int)(intptr_t)p;
+    AWS_LOGF_INFO(AWS_LS_COMMON_GENERAL, "m%d-0 %s", id, id ? "bbbbbbbbbbbbbbbbbbbbbbbb" : "aaaa");
+    AWS_LOGF_DEBUG(AWS_LS_COMMON_GENERAL, "hidden %d", id);
+    AWS_LOGF_WARN(AWS_LS_COMMON_GENERAL, "m%d-1 %s", id, id ? "dd" : "cccccccccccccccccccc");
+    return NULL;
+}
+static void l6(void) {
+    setup_common();
+    char *mem = NULL;
+    size_t memlen = 0;
+    FILE *f = open_memstream(&mem, &memlen);
+    if (!f) vs_harness_error("open_memstream");
+    struct aws_logger_standard_options o = {.level = AWS_LL_INFO, .file = f};
+    if (aws_logger_init_noalloc(&nlogger, A, &o)) vs_harness_error("noalloc init");
+    aws_logger_set(&nlogger);
+    pthread_t t;
+    pthread_create(&t, NULL, noalloc_fn, (void *)(intptr_t)1);
+    noalloc_fn((void *)(intptr_t)0);
+    pthread_join(t, NULL);
+    aws_logger_set(NULL);
+    aws_logger_clean_up(&nlogger);
+    fclose(f);
+    /* every accepted call: exactly one whole line */
+    int seen_msg[2][2] = {{0, 0}, {0, 0}}, lines = 0;
+    size_t pos = 0;
+    VS_CHECK(memchr(mem, 0, memlen) == NULL, "torn-line", "NUL byte inside the no-alloc logger's output");
+    while (pos < memlen) {
+        const char *nl = memchr(mem + pos, 10, memlen - pos);
+        if (!nl) {
+            vs_fail("torn-line", "no-alloc logger output does not end in a newline: '%s'", v_show(mem + pos, memlen - pos < 80 ? memlen - pos : 80));
+            break;
+        }
+        size_t n = (size_t)(nl - (mem + pos));
+        char line[300];
+        snprintf(line, sizeof(line), "%.*s", (int)(n < 290 ? n : 290), mem + pos);
+        lines++;
+        int id = -1, q = -1;
+        const char *dash = strstr(line, " - m");
+        if (!dash || sscanf(dash, " - m%d-%d", &id, &q) != 2 || id < 0 || id > 1 || q < 0 || q > 1) {
+            vs_fail("torn-line", "unrecognisable no-alloc line '%s'", v_show(line, strlen(line)));
+        } else {
+            seen_msg[id][q]++;
+            const char *tail = id ? (q ? "dd" : "bbbbbbbbbbbbbbbbbbbbbbbb") : (q ? "cccccccccccccccccccc" : "aaaa");
+            const char *sp = strchr(dash + 4, ' ');
+            VS_CHECK(sp && strcmp(sp + 1, tail) == 0, "torn-line", "line of thread %d call %d carries another call's text: '%s'", id, q, v_show(line, strlen(line)));
+            VS_CHECK(strncmp(line, q ? "[WARN] [" : "[INFO] [", 8) == 0, "prefix", "wrong level prefix: '%s'", v_show(line, strlen(line)));
+        }
+        VS_CHECK(!strstr(line, "hidden"), "level-gate", "a DEBUG line passed an INFO filter");
+        pos += n + 1;
+    }
+    VS_CHECK(lines == 4, "line-count", "no-alloc logger wrote %d lines for 4 accepted calls", lines);
+    for (int i = 0; i < 2; ++i)
+        for (int q = 0; q < 2; ++q) VS_CHECK(seen_msg[i][q] == 1, "lost-line", "message m%d-%d appears %d times in the output", i, q, seen_msg[i][q]);
+    free(mem);
+    VS_CHECK(ga.live_blocks == 0, "leak", "%llu allocation(s) still live after no-alloc logger clean-up", (unsigned long long)ga.live_blocks);
+}
+
 static uint64_t dig(void) {
     uint64_t h = 1469598103934665603ull;
     h = (h ^ (uint64_t)nseen) * 1099511628211ull;
@@ -211,6 +274,7 @@ int main(int argc, char **argv) {
         {.name = "L3-bg-send-then-cleanup", .run = l3, .bound_quick = 3, .bound_thorough = 4, .digest = dig},
         {.name = "L4-fg-two-senders", .run = l4, .bound_quick = 2, .bound_thorough = 3, .digest = dig},
         {.name = "L5-pipeline-logf", .run = l5, .bound_quick = 2, .bound_thorough = 3, .digest = dig},
+        {.name = "L6-noalloc-two-threads", .run = l6, .bound_quick = 2, .bound_thorough = 4, .digest = dig},
     };
     return vsx_main(sc, (int)(sizeof(sc) / sizeof(sc[0])));
 }
